@@ -622,7 +622,8 @@ func (x *Exec) syncMap(st *State, fn *ssa.Function, args []SVal, pos token.Pos, 
 // non-nil error e) run catch(p) (catch(e)); the construct itself only panics when catch does.
 func (x *Exec) tryCatch(st *State, args []SVal, pos token.Pos, k Cont) {
 	try, catch := args[0], args[1]
-	if try.K != KClosure || catch.K != KClosure {
+	isFn := func(v SVal) bool { return (v.K == KClosure || v.K == KFn) && v.Fn != nil && v.Fn.Blocks != nil }
+	if !isFn(try) || !isFn(catch) {
 		x.unsupp(st, "TryCatchWithErrorValue with non-literal closures")
 		k(st, Exit{Kind: ExitStop})
 		return
